@@ -158,6 +158,7 @@ class bptk():
         self.visualizer = visualizer(config=self.config)
         self.abmrunner = HybridRunner(self.scenario_manager_factory) #TODO rename self.abmrunner to self.model_runner if still needed
         self.session_state = None
+        self._step_lock = threading.Lock() # guards step-advancing requests, see lock()/unlock()
 
     def train_scenarios(self, scenarios, scenario_managers, episodes=1, agents=[], agent_states=[],
                           agent_properties=[], agent_property_types=[], series_names={}, return_df=False,
@@ -233,17 +234,28 @@ class bptk():
         self.session_state = state
 
     def lock(self):
-        if self.session_state is not None:
+        """Try to lock the instance for stepping.
+
+        The test and the set are one atomic operation, so of any number of concurrent callers exactly one gets the lock.
+
+        Returns:
+            True if the lock was acquired, False if the instance is locked already.
+        """
+        acquired = self._step_lock.acquire(blocking=False)
+        if acquired and self.session_state is not None:
             self.session_state["lock"] = True
+        return acquired
+
     def unlock(self):
         if self.session_state is not None:
             self.session_state["lock"] = False
+        try:
+            self._step_lock.release()
+        except RuntimeError:
+            pass # was not locked
+
     def is_locked(self):
-        if self.session_state is not None:
-            if(not "lock" in self.session_state.keys()):
-                return False
-            return self.session_state["lock"]
-        return False
+        return self._step_lock.locked()
 
     def _train_scenarios(self, scenarios, scenario_managers, episodes=1, agents=[], agent_states=[],
                            agent_properties=[], agent_property_types=[], series_names={}, return_df=False,
